@@ -379,6 +379,7 @@ type c12HTTPCase struct {
 	contentType     string // "" = not set
 	setLength       bool
 	flushFirst      bool // the handler flushes (if the writer it got can) before its first Write
+	reuseBuffer     bool // the handler writes every chunk from one buffer that it refills after each Write (as io.Copy does)
 	callWriteHeader bool
 	chunks          int
 	mw              string // "ResponseWriter" | "Middleware" | "MiddlewareWithError"
@@ -386,7 +387,7 @@ type c12HTTPCase struct {
 }
 
 func (c c12HTTPCase) String() string {
-	return fmt.Sprintf("%s target=%q content-type=%q content-length=%v writeheader=%v flush=%v chunks=%d input=%s", c.mw, c.target, c.contentType, c.setLength, c.callWriteHeader, c.flushFirst, c.chunks, c.in.name)
+	return fmt.Sprintf("%s target=%q content-type=%q content-length=%v writeheader=%v flush=%v reuse=%v chunks=%d input=%s", c.mw, c.target, c.contentType, c.setLength, c.callWriteHeader, c.flushFirst, c.reuseBuffer, c.chunks, c.in.name)
 }
 
 // expected media type per the documented rule: Content-Type, else extension of the request path
@@ -428,10 +429,23 @@ func c12RunHTTP(m *minify.M, c c12HTTPCase) string {
 		if step == 0 {
 			step = 1
 		}
+		var buf []byte
+		if c.reuseBuffer {
+			buf = make([]byte, step)
+		}
 		for p := 0; p < len(c.in.data); p += step {
 			e := p + step
 			if e > len(c.in.data) {
 				e = len(c.in.data)
+			}
+			if c.reuseBuffer {
+				// Write must not keep the slice: once it has returned the buffer belongs to the handler again
+				n := copy(buf, c.in.data[p:e])
+				w.Write(buf[:n])
+				for i := range buf {
+					buf[i] = '#'
+				}
+				continue
 			}
 			w.Write(c.in.data[p:e])
 		}
@@ -635,9 +649,12 @@ func C12(run *core.Run) {
 				targets = append(targets, "/module.mjs")
 			}
 			for _, target := range targets {
-				for _, ct := range []string{"", in.mt, in.mt + "; charset=utf-8", "application/octet-stream"} {
+				// (the last three are headers a strict media type parser refuses: a value with a slash, a parameter
+				// without value, an unclosed quote; the registry's own splitting is lenient and decides)
+				for _, ct := range []string{"", in.mt, in.mt + "; charset=utf-8", "application/octet-stream", in.mt + "; profile=https://example.com/schema/order.json", in.mt + "; flag", in.mt + "; title=\"unclosed"} {
 					for flags := 0; flags < 8; flags++ {
 						c := c12HTTPCase{target: target, contentType: ct, setLength: flags&1 != 0, callWriteHeader: flags&2 != 0, flushFirst: flags&4 != 0, chunks: 1 + (flags+len(target))%3, mw: mw, in: in}
+						c.reuseBuffer = (flags+len(ct)+len(target))%2 == 0
 						run.Eval()
 						httpCases++
 						if s := c12RunHTTP(m, c); s != "" {
